@@ -214,6 +214,16 @@ def st_spec(draw):
         rids = [draw(st.sampled_from(["base"] * 24 + RIDK[12:])) for _ in range(k)]
     else:
         rids = [draw(st.sampled_from(RIDK[8:])) for _ in range(k)]
+    # decoy scenario: the first definition of the entry file lists a file of another
+    # measurement before the right one
+    decoy = None
+    if k >= 3 and draw(st.integers(0, 5)) == 0:
+        tgt = [b for (a, b) in pairs if a == 0 and b != 0]
+        if tgt and rids[0] != "none":
+            j = draw(st.sampled_from([q for q in range(1, k) if q != tgt[0]]))
+            rids[tgt[0]] = rids[0]
+            rids[j] = "other" if rids[0] != "other" else "base"
+            decoy = (tgt[0], j)
     files = []
     for i in range(k):
         files.append({
@@ -238,8 +248,13 @@ def st_spec(draw):
             mapped = True
         style = draw(st.sampled_from(["abs", "abs", "rel"]))
         locs = [{"to": b, "style": style}]
-        extra = draw(st.sampled_from(["", "", "", "", "dangling-first", "dangling-only",
-                                      "second", "second"]))
+        extra = draw(st.sampled_from(
+            ["", "", "", "", "dangling-first", "dangling-only", "second", "second"]
+            + (["second", "second"] if a == 0 else [])))
+        if decoy is not None and a == 0 and b == decoy[0]:
+            typ, extra = "file", ""
+            locs.insert(0, {"to": decoy[1], "style": "abs"})
+            decoy = None
         if extra == "dangling-first":
             locs.insert(0, {"to": -1, "style": draw(st.sampled_from(["abs", "rel"]))})
         elif extra == "dangling-only":
@@ -249,10 +264,10 @@ def st_spec(draw):
                      "style": draw(st.sampled_from(["abs", "rel"]))}
             if draw(st.booleans()):
                 # a first candidate that exists but belongs to another measurement
-                bad = [j for j in range(k)
-                       if verdict(r, RID[rids[j]], mapped) in ("no", "kf")]
+                bad = [j for j in range(k) if j not in (a, b)
+                       and verdict(r, RID[rids[j]], mapped) in ("no", "kf")]
                 if bad and draw(st.integers(0, 3)) > 0:
-                    other["to"] = draw(st.sampled_from(bad))
+                    other = {"to": draw(st.sampled_from(bad)), "style": "abs"}
                 locs.insert(0, other)
             else:
                 locs.append(other)
@@ -374,6 +389,7 @@ class Model:
                     if "perm" not in self.relax:
                         continue
                 prefix_certain = True
+                rejected = False
                 for lo in e["locs"]:
                     t = lo["to"]
                     if t < 0:
@@ -384,8 +400,12 @@ class Model:
                     v = self._verdict(r, RID[self.files[t]["rid"]], mapped, True,
                                       mode == "local")
                     if v == "no":
+                        rejected = True
                         continue
                     st_ = status if (v == "yes" and prefix_certain) else min(status, 1)
+                    if (rejected and st_ == 2 and not self.relax
+                            and t != x and t not in onpath):
+                        self.cls["loc:second-after-mismatch"] += 1
                     self._claim(e, fset, st_)
                     self.visit(t, mode, onpath + (x,), ncmap, st_, nfset, ntypes)
                     if v == "yes":
@@ -567,10 +587,6 @@ def _count_classes(spec, rec):
             mapped = e["map"] is not None
             if len([lo for lo in e["locs"] if lo["to"] >= 0]) > 1:
                 seen.add("loc:second-candidate")
-                vs = [verdict(r, RID[files[lo["to"]]["rid"]], mapped)
-                      for lo in e["locs"] if lo["to"] >= 0]
-                if e["type"] == "file" and vs[0] in ("no", "kf") and vs[1] == "yes":
-                    seen.add("loc:second-after-mismatch")
             for lo in e["locs"]:
                 if lo["to"] < 0:
                     seen.add("loc:dangling")
@@ -609,6 +625,8 @@ def run_case(spec, rec):
             rec.skip("graph-with-too-many-walks")
             return
         _count_classes(spec, rec)
+        if any(m.cls["loc:second-after-mismatch"] for m in models.values()):
+            rec.cls("loc:second-after-mismatch")
         gcls = graph_classes(spec)
         if gcls & {"graph:cycle>=2", "graph:remote->file"}:
             rec.nontrivial()
